@@ -388,3 +388,172 @@ def validate_vm_traces(ctx, name, cases, timeout=900, max_events=300000):
     ctx.transitions += st["states"]
     ctx.diagnostics.setdefault("vm_trace_validation", []).append({"name": name, **res})
     return res
+
+
+FIELDS["C05"] = ["spans", "vars", "num", "loc", "val", "repl", "panic"]
+RULES["C05"] = ("replace commands: 4 bodies with captures whose values differ between matches x every with-list of "
+                "1..2 items (plus longer ones) over {literal, capture, unbound name, undefined name, 7 built-ins, 6 "
+                "transforms} x all strings over {a,b,newline} up to the tier's length; non-trivial = at least one match")
+
+
+@check("C05")
+def c05(ctx):
+    ctx.technique = "Replacement(m) of spec/Replace.tla + Eval/Exec of spec/Expr.tla evaluated by TLC, replayed into Compile/Run"
+    cases = ctx.gen_cases("C05")
+    ctx.replay("C05-with-lists", cases, FIELDS["C05"])
+
+
+def run_sharded_machine(ctx, module, cases, invariants, nshards=None, timeout=900):
+    """Model-check a case-driven state machine spec (one behaviour per case)
+    sharded over JVMs; returns the JSON documents its Emit invariant printed."""
+    nshards = max(1, min(nshards or vlib.NCPU, len(cases)))
+    shards = [[] for _ in range(nshards)]
+    for k, c in enumerate(cases):
+        shards[k % nshards].append(c)
+    from concurrent.futures import ThreadPoolExecutor
+
+    def one(k):
+        d = ctx.scratch.sub("%s%d" % (module.lower(), k))
+        with open(os.path.join(d, "cases.ndjson"), "w") as f:
+            for c in shards[k]:
+                f.write(json.dumps(c, separators=(",", ":")) + "\n")
+        cfg = "SPECIFICATION Spec\nCONSTANT CaseFile = \"cases.ndjson\"\nINVARIANTS %s\nCHECK_DEADLOCK FALSE\n" % " ".join(invariants)
+        out, st = vlib.run_tlc(d, module, cfg, workers=1, timeout=timeout, heap="2g")
+        if not st["ok"]:
+            raise Undecided("model checking of spec/%s.tla failed:\n%s" % (module, vlib.tlc_error_excerpt(out, 50)))
+        return vlib.tlc_json_lines(out), st
+
+    docs, tot = [], {"states": 0, "distinct": 0, "wall_s": 0}
+    with ThreadPoolExecutor(max_workers=nshards) as ex:
+        for dd, st in ex.map(one, range(nshards)):
+            docs.extend(dd)
+            tot["states"] += st["states"]
+            tot["distinct"] += st["distinct"]
+            tot["wall_s"] = max(tot["wall_s"], st["wall_s"])
+    return docs, tot
+
+
+RULES["C06"] = ("behaviours of the file-system machine spec/FS.tla: command lists (find / replace with empty, shorter, "
+                "equal, longer replacements; second command re-reading the file) x file sets (1-2 files, all contents "
+                "over {a,b,c} up to the tier's length) x {NOTHING, NEW, OVERWRITE} x {stale .vored present, absent}; each "
+                "behaviour replayed through RunFiles in a fresh temp directory and the directory compared byte for byte; "
+                "non-trivial = at least one match")
+
+
+@check("C06")
+def c06(ctx):
+    ctx.technique = "file-system state machine spec/FS.tla model-checked (mode invariants, splice lemma); every behaviour replayed through RunFiles"
+    cases = ctx.gen_cases("C06")
+    docs, st = run_sharded_machine(ctx, "FS", cases, ["OnlyAllowedFilesChange", "SpliceLemma", "Emit"])
+    if len(docs) != len(cases):
+        raise Undecided("FS.tla emitted %d final states for %d cases" % (len(docs), len(cases)))
+    ctx.add_mc("FS", st, "OnlyAllowedFilesChange and SpliceLemma in every state of every behaviour of the file-system machine")
+    d = ctx.scratch.sub("rp_fs")
+    cp, ep, rp = [os.path.join(d, x) for x in ("cases.ndjson", "expect.ndjson", "report.json")]
+    with open(cp, "w") as f:
+        for c in cases:
+            f.write(json.dumps(c, separators=(",", ":")) + "\n")
+    with open(ep, "w") as f:
+        for e in docs:
+            f.write(e + "\n")
+    p = subprocess.run([ctx.get_harness(), "replayfs", "-property", "C06", "-cases", cp, "-expect", ep, "-report", rp,
+                        "-replaydir", os.path.join(vlib.VERIF, "replays", "C06")], capture_output=True, text=True)
+    if p.returncode != 0 or not os.path.exists(rp):
+        raise Undecided("replayfs failed: " + p.stderr[-1500:])
+    with open(rp) as f:
+        rep = json.load(f)
+    for k in ("abstained_quirk", "rejected_by_compile", "ast_checked", "ast_mismatch"):
+        rep.setdefault(k, 0)
+    ctx.absorb("C06-fs-machine", rep)
+
+
+FIELDS["C11"] = ["spans", "repl", "panic"]
+RULES["C11"] = ("expressions: every operator x operand pair over the boundary values {0,1,2,7,-1,matchLength,'','0','7','10',"
+                "'abc','a',match,undefined variable,true,false} accepted by the specification's checker and with a defined "
+                "value; every pair of operators in both tree shapes over 6 operand triples; unary/binary mixes; depth-3 "
+                "trees over 6 operators -- each rendered by the specification with minimal and with full parentheses "
+                "(tokens from spec/Expr.tla RenderMin/RenderFull) and observed through a transform (and, for booleans, a "
+                "predicate); non-trivial = every case (each has an expected value); distinct by source")
+
+
+@check("C11")
+def c11(ctx):
+    ctx.technique = ("operator/coercion tables and precedence as TLA+ definitions (spec/Expr.tla); TLC checks "
+                     "ParseExpr(Render(e)) = e and evaluates Eval; values replayed through transforms and predicates")
+    d = ctx.scratch.sub("mc_expr")
+    out, st = vlib.run_tlc(d, "MC_Expr", "SPECIFICATION Spec\nINVARIANTS RoundTripOK TypeSound\nCONSTANT Dev = {}\nCHECK_DEADLOCK FALSE\n",
+                           workers=8, timeout=600, heap="4g")
+    if not st["ok"]:
+        raise Undecided("MC_Expr failed:\n" + vlib.tlc_error_excerpt(out))
+    ctx.add_mc("MC_Expr", st, "documented precedence levels: minimal and full parenthesisation parse back to the tree; typing agrees with evaluation")
+    cases = ctx.gen_cases("C11")
+    ctx.replay("C11-expressions", cases, FIELDS["C11"])
+
+
+FIELDS["C12"] = ["accept", "panic", "cpanic", "repl", "spans"]
+RULES["C12"] = ("statement lists of 1..3 statements over {set, if/else, loop (nested), break, continue, return, debug} with "
+                "well- and ill-typed expressions, each list in transform and in predicate context, every variable "
+                "single-typed; expected accept/reject = Check of spec/Expr.tla; accepted terminating code is also run; "
+                "non-trivial = the specification rejects the list (plus every run with a match)")
+
+
+@check("C12")
+def c12(ctx):
+    ctx.technique = "static checker as TLA+ definition (spec/Expr.tla Check); accept/reject and run-time behaviour replayed into Compile/Run"
+    cases = ctx.gen_cases("C12")
+    ctx.replay("C12-typing", cases, FIELDS["C12"])
+
+
+FIELDS["C13"] = ["spans", "vars", "num", "loc", "val", "panic", "reject", "spelling"]
+RULES["C13"] = ("12 capture-free bodies x 12 use contexts (1..3 references: alone, prefix, suffix, in loops, in "
+                "alternations) x 3 spellings (written out, inline subroutine + calls, `set .. to pattern` + references), "
+                "as single commands and as 3-command programs sharing the definitions; all strings over the alphabet up "
+                "to the tier's length; the three spellings of a group must give the specification's single result; "
+                "non-trivial = at least one expected match")
+
+
+def check_spellings(ctx, cases, exps):
+    """Transparent on the specification: the three spellings of one
+    (body, use) group have equal expectations."""
+    by_id = {c["id"]: c for c in cases}
+    groups = {}
+    for e in exps:
+        doc = json.loads(e) if isinstance(e, str) else e
+        c = by_id[doc["id"]]
+        key = c.get("grp")
+        sig = json.dumps([[r["t"], [(m["s"], m["e"], m["n"]) for m in r["ms"]]] for r in doc["r"]], sort_keys=True)
+        groups.setdefault(key, set()).add(sig)
+    bad = [k for k, v in groups.items() if len(v) != 1]
+    if bad:
+        raise Undecided("specification inconsistency: spellings of groups %s differ in spec/Semantics.tla" % bad[:5])
+    return len(groups)
+
+
+@check("C13")
+def c13(ctx):
+    ctx.technique = ("Transparent: inline / subroutine / global spellings evaluated by TLC to one result and replayed; "
+                     "VM.tla o Codegen.tla (relocation Adjust) model-checked; repeated Compile/Run histories replayed")
+    cases = ctx.gen_cases("C13")
+    quick = ctx.tier == "quick"
+    exps, st = vlib.eval_cases(ctx.scratch, cases)
+    ctx.states += st["distinct"]
+    ctx.transitions += st["states"]
+    n = check_spellings(ctx, cases, exps)
+    ctx.diagnostics["spelling_groups_equal_on_spec"] = n
+    ctx.replay("C13-spellings", cases, FIELDS["C13"], reject_violation=True, exps=exps)
+    # the relocation of stored global code, on the specification: every command of every program
+    vmcases = []
+    for c in cases:
+        if c["spelling"] == 0 or (quick and c["id"] % 3 != 0):
+            continue
+        for k in range(1, len(c["cmds"]) + 1):
+            cc = dict(c)
+            cc["cmdk"] = k
+            cc["id"] = len(vmcases) + 1
+            vmcases.append(cc)
+    mc_vm(ctx, "transparent", cap_texts(vmcases, hi_cap=3 if quick else 4, first_cmd_only=False),
+          what="VM(Codegen(spelling)) refines Semantics for subroutine and global spellings (relocation by Adjust), every command of multi-command programs")
+    if not quick:
+        glob = [c for c in vmcases if c["spelling"] == 2 and any("sub" in json.dumps(c["defs"]) for _ in [0])]
+        mc_vm(ctx, "sens-AdjustKeepsSubId", cap_texts(glob or vmcases, hi_cap=3, first_cmd_only=False),
+              dev=["AdjustKeepsSubId"], expect="RefinesSemantics")
